@@ -12,3 +12,9 @@ claim("C10",
   "Decides structural necessary conditions of C10 for every input: no integer division in the suppress computation can see a zero divisor (never crashes when no CPU is eligible); reserved, system-exclusive and LSE-owned CPUs cannot enter the BE candidate pools or survive calcBECPUSet's filter; the applied CPU list comes only from the selection over those pools; consumption terms only lower the budget; the quota is floored. It does not decide the numeric budget, the exact CPU count, distinctness or the step limit.",
   "trusts go/ssa and the rule tables in internal/rules/c10.go; numeric quantities are not decided; assumes configured percentages are non-negative",
   "DESIGN.md §4 C10")
+
+claim("C09",
+  "custom SSA rules: accumulator-family co-charge path rule, sibling arm-vector comparison, polarity abstract interpretation with an operator table, clamp provenance, degrade gate exploration",
+  "Decides structural necessary conditions of C09 for every input and configuration: whenever a pod is charged to 'used' it is charged to 'max(used,request)' too (node and NUMA level), both levels charge under the same arms, the policy formula is non-increasing in every consumption input on every policy branch and every entry is zero-clamped (and threshold-capped from capacity), stale metrics lead to Reset and never to the computation. It does not decide the numeric bound or the mid-tier arithmetic.",
+  "trusts the polarity operator table (semantics of quota/v1 Add/Subtract/Max and util.MinQuant/Multiply*Quant read from source) and assumes non-negative configured percentages",
+  "DESIGN.md §4 C09")
